@@ -44,6 +44,12 @@ type script struct {
 	NilAnswers  bool   `json:"nil_slices,omitempty"`            // empty chain / signature / envelope answered as nil
 	Hist        string `json:"history,omitempty"`               // "h<k>/<step>": step of a history on ONE long-lived signer
 
+	// commands that answer a nil response with a nil error
+	NilMeta bool `json:"metadata_nil,omitempty"`
+	NilDK   bool `json:"describe_key_nil,omitempty"`
+	NilGS   bool `json:"gensig_nil,omitempty"`
+	NilGE   bool `json:"genenv_nil,omitempty"`
+
 	MetaErr bool `json:"metadata_error,omitempty"`
 	CapRaw  bool `json:"cap_raw"`
 	CapEnv  bool `json:"cap_envelope"`
@@ -115,6 +121,7 @@ type plugin struct {
 	now     time.Time
 	gs      gsFacts
 	ge      geFacts
+	metaCalled, dkCalled bool
 	respAnn map[string]string // the plugin's own map, answered by reference in every generate-envelope response
 	hook    func()            // concurrency family: called on entry of every plugin command
 }
@@ -127,6 +134,10 @@ func (p *plugin) enter() {
 
 func (p *plugin) GetMetadata(ctx context.Context, req *pl.GetMetadataRequest) (*pl.GetMetadataResponse, error) {
 	p.enter()
+	p.metaCalled = true
+	if p.s.NilMeta {
+		return nil, nil
+	}
 	if p.s.MetaErr {
 		return nil, errMeta
 	}
@@ -156,6 +167,10 @@ func (p *plugin) GetMetadata(ctx context.Context, req *pl.GetMetadataRequest) (*
 
 func (p *plugin) DescribeKey(ctx context.Context, req *pl.DescribeKeyRequest) (*pl.DescribeKeyResponse, error) {
 	p.enter()
+	p.dkCalled = true
+	if p.s.NilDK {
+		return nil, nil
+	}
 	if p.s.DKErr {
 		return nil, errDescribe
 	}
@@ -240,6 +255,9 @@ func (p *plugin) GenerateSignature(ctx context.Context, req *pl.GenerateSignatur
 	f := &p.gs
 	f.called = true
 	f.reqKeySpec, f.reqHash = string(req.KeySpec), string(req.Hash)
+	if p.s.NilGS {
+		return nil, nil
+	}
 	if p.s.GSErr {
 		return nil, errGenSig
 	}
@@ -303,6 +321,10 @@ func (p *plugin) GenerateEnvelope(ctx context.Context, req *pl.GenerateEnvelopeR
 	p.enter()
 	f := &p.ge
 	f.called = true
+	if p.s.NilGE {
+		f.failed = true
+		return nil, nil
+	}
 	if p.s.GEErr {
 		f.failed = true
 		return nil, errGenEnv
@@ -383,6 +405,8 @@ func corruptSignature(format string, env []byte) []byte {
 func classify(err error, envPath bool) string {
 	msg := err.Error()
 	for _, t := range []struct{ sub, cls string }{
+		{"plugin returned an empty get-plugin-metadata response", "ENilMeta"}, {"plugin returned an empty describe-key response", "ENilDK"},
+		{"plugin returned an empty generate-signature response", "ENilGS"}, {"plugin returned an empty generate-envelope response", "ENilGE"},
 		{"vh-meta-error", "EMeta"}, {"vh-describe-error", "EDescribe"}, {"vh-gensig-error", "EGenSig"}, {"vh-genenv-error", "EGenEnv"},
 		{"plugin does not have signing capabilities", "ENoCap"},
 		{"keyID in describeKey response", "EKeyId"}, {"unknown key spec", "EKeySpec"},
@@ -513,6 +537,7 @@ func runCase(id int64, s *script, now time.Time, sess *session) (term string, ke
 	}
 	p, ps := sess.p, sess.ps
 	p.s, p.gs, p.ge = s, gsFacts{}, geFacts{}
+	p.metaCalled, p.dkCalled = false, false
 	ctx := sess.ctx
 	if ctx == nil {
 		ctx = context.Background()
@@ -529,7 +554,18 @@ func runCase(id int64, s *script, now time.Time, sess *session) (term string, ke
 	// frame: deep snapshots of every caller-owned object that goes in by reference
 	snapAnn, snapCtor, snapOpts, snapResp := copyMap(sess.ann), copyMap(sess.ctorCfg), copyMap(sess.optsCfg), copyMap(p.respAnn)
 	snapURLs := append([]string(nil), sess.urls...)
+	var sig []byte
+	var info *signature.SignerInfo
+	var serr error
+	panicked := false
 	defer func() {
+		// the triple (signature, signerInfo, error): an error comes alone, a signature comes with its signer info
+		if !panicked && serr != nil && (sig != nil || info != nil) {
+			frame = append(frame, "!an error was returned together with signature bytes or signer info")
+		}
+		if !panicked && serr == nil && (len(sig) == 0 || info == nil) {
+			frame = append(frame, "!no error was returned, but the signature is empty or the signer info is nil")
+		}
 		if !sameMap(snapAnn, sess.ann) {
 			frame = append(frame, "descriptor annotations")
 		}
@@ -552,9 +588,6 @@ func runCase(id int64, s *script, now time.Time, sess *session) (term string, ke
 			frame = append(frame, "envelope bytes of the plugin's generate-envelope response")
 		}
 	}()
-	var sig []byte
-	var serr error
-	panicked := false
 	var dalg int64
 	func() {
 		defer func() {
@@ -564,12 +597,12 @@ func runCase(id int64, s *script, now time.Time, sess *session) (term string, ke
 			}
 		}()
 		if s.Blob {
-			sig, _, serr = ps.SignBlob(ctx, func(a digest.Algorithm) (ocispec.Descriptor, error) {
+			sig, info, serr = ps.SignBlob(ctx, func(a digest.Algorithm) (ocispec.Descriptor, error) {
 				dalg = digestBits(a)
 				return desc, nil
 			}, opts)
 		} else {
-			sig, _, serr = ps.Sign(ctx, desc, opts)
+			sig, info, serr = ps.Sign(ctx, desc, opts)
 		}
 	}()
 
@@ -586,8 +619,8 @@ func runCase(id int64, s *script, now time.Time, sess *session) (term string, ke
 	gs := "GSErr"
 	if !s.GSErr {
 		f := p.gs
-		if !f.called {
-			// the answer was never asked for: no facts exist (printed as all-false)
+		if !f.called || s.NilGS {
+			// the answer was never asked for (or it was nil): no facts exist (printed as all-false)
 			f = gsFacts{keyID: s.GSKeyID}
 		}
 		gs = CApp("GSAns", CApp("mk_gs", CStr(f.keyID), CBool(f.chainParse), CN(int64(f.chainLen)), CBool(f.sigEmpty), CBool(f.chainValid), coqAlgOpt(f.leafAlg), CBool(f.sigOK)))
@@ -649,14 +682,19 @@ func runCase(id int64, s *script, now time.Time, sess *session) (term string, ke
 		gsreq = CSome(CPair(CStr(p.gs.reqKeySpec), CStr(p.gs.reqHash)))
 	}
 	ob := CApp("mk_obs", res, gsreq, CN(dalg))
-	term = CApp("mk_case", CN(id), in, ob)
+	nl := CApp("mk_nils", CBool(s.NilMeta), CBool(s.NilDK), CBool(s.NilGS), CBool(s.NilGE))
+	if !(s.NilMeta || s.NilDK || s.NilGS || s.NilGE) {
+		nl = "no_nils"
+	}
+	term = CApp("mk_case", CN(id), nl, in, ob)
 	// distinctness / non-triviality
 	k := *s
 	k.ErrMsg = ""
 	kb, _ := json.Marshal(k)
 	key = string(kb)
 	// non-trivial: the plugin answered the signing call (the decision depended on the checks)
-	nontrivial = (p.ge.called && !p.ge.failed) || (p.gs.called && !s.GSErr)
+	nontrivial = (p.ge.called && !p.ge.failed) || (p.gs.called && !s.GSErr && !s.NilGS) ||
+		(s.NilMeta && p.metaCalled) || (s.NilDK && p.dkCalled) || (s.NilGS && p.gs.called) || (s.NilGE && p.ge.called)
 	_ = payloadJSON
 	_ = tree
 	return term, key, nontrivial, true, nil
@@ -925,7 +963,7 @@ func runC18(a *Args) error {
 	}
 	prelude := "From NV Require Import Base C18_Json C18_Model.\nOpen Scope string_scope.\n"
 	w := NewCaseWriter(a, "C18", prelude, "case", "run")
-	w.Rule = "scripted plugin.SignPlugin with real keys for the six key specs (two keys each) driving the real signer.PluginSigner.Sign / SignBlob. Families: (corpus) hand-written payloads incl. \"TargetArtifact\", duplicated members, null; (envelope-payload) honest payload for a descriptor from a pool, changed by 0-2 of 23 edit operators (other digest/size/media type, literal forms of size, dropped/altered/added/duplicated/split/null annotations, unknown / differently spelled / optional / duplicated descriptor members, extra / differently spelled / duplicated payload members, unknown member hidden behind a duplicate, non-object payloads, non-JSON bytes), signed into a COSE envelope (notation-core-go, remote signer) or a hand-assembled JWS (payload bytes kept as they are), all six key specs; (envelope-level) wrong type echo, other real format, wrong content type, chain of another key, flipped / truncated / garbage / empty envelope, plugin error, unsupported requested type; (raw) describe-key and generate-signature answers: other key id, undecodable key spec, errors, chain of another key / another spec / leaf only / root only / reversed / empty / unparsable / expired / self-signed, wrong hash, flipped / empty / truncated signature, key of another spec than described; (dispatch) metadata error, no / both capabilities, Sign and SignBlob. The payload tree printed for the model is re-read token by token from the payload bytes the envelope really carries. non-trivial = the plugin answered the signing call (generate-envelope or generate-signature) so the outcome was decided by the signer's checks; distinct = distinct scripts"
+	w.Rule = "scripted plugin.SignPlugin with real keys for the six key specs (two keys each) driving the real signer.PluginSigner.Sign / SignBlob. Families: (corpus) hand-written payloads incl. \"TargetArtifact\", duplicated members, null; (envelope-payload) honest payload for a descriptor from a pool, changed by 0-2 of 23 edit operators (other digest/size/media type, literal forms of size, dropped/altered/added/duplicated/split/null annotations, unknown / differently spelled / optional / duplicated descriptor members, extra / differently spelled / duplicated payload members, unknown member hidden behind a duplicate, non-object payloads, non-JSON bytes), signed into a COSE envelope (notation-core-go, remote signer) or a hand-assembled JWS (payload bytes kept as they are), all six key specs; (envelope-level) wrong type echo, other real format, wrong content type, chain of another key, flipped / truncated / garbage / empty envelope, plugin error, unsupported requested type; (raw) describe-key and generate-signature answers: other key id, undecodable key spec, errors, chain of another key / another spec / leaf only / root only / reversed / empty / unparsable / expired / self-signed, wrong hash, flipped / empty / truncated signature, key of another spec than described; (dispatch) metadata error, no / both capabilities, Sign and SignBlob; (nil-answer) each of the four commands answering a nil response with a nil error, alone and in pairs, Sign and SignBlob, every capability set, over honest and over failing other answers, and honest / nil / honest histories on one signer. Every call is also checked for the shape of the returned triple (an error comes with nil signature and nil signer info; a signature with non-nil signer info). The payload tree printed for the model is re-read token by token from the payload bytes the envelope really carries. non-trivial = the plugin answered the signing call (generate-envelope or generate-signature) so the outcome was decided by the signer's checks; distinct = distinct scripts"
 	w.Assumptions = []string{
 		"the JSON lexer is not modelled: the payload tree is re-read from the envelope's payload bytes by encoding/json's token reader (duplicates and order kept); member names are ASCII, no \"-0\" literal",
 		"facts about the plugin's bytes are asked from the dependencies in the same run: signature.ParseEnvelope / Envelope.Verify (notation-core-go), x509.ParseCertificate, notation-core-go x509.ValidateCodeSigningCertChain, signature.ExtractKeySpec, rsa.VerifyPSS / ecdsa.Verify over the bytes the signer asked to be signed",
@@ -953,6 +991,11 @@ func runC18(a *Args) error {
 	}
 	record = func(id int64, s *script, term, key string, nt, ok bool, frame []string) {
 		for _, what := range frame {
+			if strings.HasPrefix(what, "!") {
+				w.ImplViolation(id, what[1:], s, "return:"+what[1:])
+				w.Count("return-violation", what[1:])
+				continue
+			}
 			w.ImplViolation(id, "library mutated caller-owned "+what, s, "frame:"+what)
 			w.Count("frame-violation", what)
 		}
@@ -997,7 +1040,7 @@ func runC18(a *Args) error {
 	for _, sf := range []struct {
 		base int64
 		list []*script
-	}{{500000, positionalScripts()}, {510000, matchedScripts()}, {520000, emptyAbsentScripts()}, {530000, rareSyntaxScripts()}, {540000, chainScripts()}} {
+	}{{500000, positionalScripts()}, {510000, matchedScripts()}, {520000, emptyAbsentScripts()}, {530000, rareSyntaxScripts()}, {540000, chainScripts()}, {560000, nilScripts()}} {
 		for i, s := range sf.list {
 			id := sf.base + int64(i)
 			if w.Want(id) {
@@ -1027,6 +1070,28 @@ func runC18(a *Args) error {
 				emit(id, s, sess)
 			} else if a.Only >= 0 && id < a.Only {
 				runCase(id, s, now, sess) // bring the signer into the state the replayed step saw
+			}
+		}
+	}
+	// nil-answer histories: ONE signer, honest / nil / honest / all nil / honest
+	for h := 0; h < 32; h++ {
+		base := int64(570000 + h*8)
+		wanted := false
+		for k := int64(0); k < 8; k++ {
+			wanted = wanted || w.Want(base+k)
+		}
+		if !wanted {
+			continue
+		}
+		steps := nilHistory(rng.Fork(uint64(base)), h)
+		sess := newSession("key1", now)
+		for k, s := range steps {
+			id := base + int64(k)
+			s.Hist = fmt.Sprintf("n%d/%d", h, k)
+			if w.Want(id) {
+				emit(id, s, sess)
+			} else if a.Only >= 0 && id < a.Only {
+				runCase(id, s, now, sess)
 			}
 		}
 	}
